@@ -834,6 +834,8 @@ def must_build(scn):
         hs_ = [s_['holds'][m] for s_ in srcs if m in s_.get('holds', {})]
         if not hs_ or any(h.get('o', 'ok') != 'ok' or h.get('variants') or 'text' in h for h in hs_):
             continue
+        if any(specs.get(d, {}).get('rootname') for d in sp.get('imports', ()) if d != m):
+            continue        # imports the root node of a module that calls it something else
         ok.add(m)
     changed = True
     while changed:
@@ -1051,6 +1053,12 @@ def gen_world(rng, tier, focus='C07'):
             if others:
                 chg['imports'] = specs[m_]['imports'] + [rng.choice(others)]
             scn['second']['respec'] = {m_: chg}
+            parents_ = sorted(set(specs[x]['oidparent'] for x in names if specs[x].get('oidparent') in names and specs[x].get('variant', 'ok') == 'ok'))
+            if parents_ and rng.random() < 0.4:
+                # a dependency is replaced by a release that calls its root node something else: the unchanged modules
+                # that hang their objects below that node cannot be generated any more
+                d_ = rng.choice(parents_)
+                scn['second']['respec'] = {d_: {'rootname': mibgen.sym(d_) + 'Trunk'}}
             if rng.random() < 0.7:
                 scn['second']['options']['rebuild'] = True
     if rng.random() < 0.12 and not scn.get('file_alias'):
